@@ -49,9 +49,8 @@ LEVEL_TEXT = ("Props/C10.lean (complete, release mode): parseNumber_total / pars
 LEVEL_NOTE = ("Trusted: Lean kernel; rustc; that the models mirror the Rust control flow (correspondence only: C12 stream 871k ops + this "
               "property's arbitrary-byte streams, release and dbg profiles). Actual over-reads are only observable through the guard "
               "page (one byte past the end faults; reads before the start are not caught). The integer parser with the `format` feature "
-              "(prefix/suffix/separators) is modelled by Model.ParseIntFormat (Props/C04Format.lean: total for the formats without "
-              "integer-separator/prefix/suffix/leading-zero flag - any separator byte and any fraction/exponent separator flags since /repo 12a2453 -, decided debug panic witness '1h_'; other formats: full statement kept as a def, "
-              "correspondence 0 mismatches on all pi ops).")
+              "(prefix/suffix/separators) is modelled by Model.ParseIntFormat; Props/C04Format.lean parseIntFormat_total: release totality (no FAULT/PANIC, "
+              "indices <= length) PROVED for EVERY valid format (Proof/ParseIntFormatTotal.lean); debug: decided panic witness '1h_', full statement kept as a def.")
 
 
 def feature_sets(tier):
